@@ -26,7 +26,7 @@ const rule = "case = a valid route set in which a random subset of routes gets H
 	"non-trivial = a case with a request whose path is admitted by a constrained route whose constraints fail (so another route or not-found must take it), or that reaches a constrained route through its short form, a non-first method or a fully static path; distinct by case text"
 
 var assumptions = []string{
-	"header lookup follows net/http: names are case-insensitive, the first value counts",
+	"header lookup follows net/http: names are case-insensitive; a header field sent several times is only generated where the first value, the last, any of them and the joined list all give the same verdict",
 	"Headers() is called with balanced pairs and compiling expressions (anything else panics by contract)",
 }
 
@@ -42,7 +42,7 @@ func (h HReg) methods() []string {
 	switch {
 	case h.Via == "get":
 		return []string{"GET"}
-	case h.Via == "autohead-get":
+	case h.Via == "autohead-get", h.Via == "autohead-get-again":
 		return []string{"GET", "HEAD"}
 	case strings.HasPrefix(h.Via, "route:"):
 		return model.ExpandMethod(strings.TrimPrefix(h.Via, "route:"))
@@ -103,10 +103,12 @@ func checkCase(c Case) (out evid.Outcome) {
 	notFound := false
 	f.NotFound(func(ctx flamego.Context) { notFound = true; ctx.ResponseWriter().WriteHeader(404) })
 	handles := make([]*flamego.Route, len(c.Regs))
+	cur := -1
 	regErr := func() (err interface{}) {
 		defer func() { err = recover() }()
 		for i, g := range c.Regs {
 			i := i
+			cur = i
 			h := func(ctx flamego.Context) { ran = i; ctx.ResponseWriter().WriteHeader(200) }
 			var r *flamego.Route
 			switch {
@@ -115,6 +117,12 @@ func checkCase(c Case) (out evid.Outcome) {
 			case g.Via == "autohead-get":
 				// Get while AutoHead is on registers the route for HEAD too: the
 				// constraints are the route's, whatever the method
+				f.AutoHead(true)
+				r = f.Get(g.R, h)
+				f.AutoHead(false)
+			case g.Via == "autohead-get-again":
+				// switching on what is on already changes nothing
+				f.AutoHead(true)
 				f.AutoHead(true)
 				r = f.Get(g.R, h)
 				f.AutoHead(false)
@@ -136,6 +144,13 @@ func checkCase(c Case) (out evid.Outcome) {
 		}
 		return nil
 	}()
+	if regErr != nil && cur >= 0 && (c.Regs[cur].Via == "routes-lower" || c.Regs[cur].Via == "route:get") {
+		// a method name in another spelling than the standard upper-case one: that
+		// the router takes it is not part of any statement
+		out.Excluded = out.Sub
+		out.Classes = append(out.Classes, "method-spelling-refused")
+		return out
+	}
 	if regErr != nil {
 		// every route of a case is one the statement of C08 obliges the router to accept
 		return evid.Fail("registration-panic", "registration panicked: %v; routes %s", regErr, js(c.Regs))
@@ -154,6 +169,12 @@ func checkCase(c Case) (out evid.Outcome) {
 			}
 			out.NonTrivial = true
 			out.Classes = append(out.Classes, "constraints-changed-after-serving")
+		}
+		for _, g := range c.Regs {
+			if len(g.Headers) > 1 {
+				out.Classes = append(out.Classes, "headers-respecified")
+				break
+			}
 		}
 		compiled := map[string][]model.MRoute{}
 		for _, q := range c.Reqs {
@@ -193,17 +214,9 @@ func checkCase(c Case) (out evid.Outcome) {
 					out.NonTrivial = true
 					out.Classes = append(out.Classes, "via-static-path")
 				}
-				if ms := c.Regs[want.Route.Index].methods(); len(ms) > 1 && q.M != ms[len(ms)-1] {
+				if ms := c.Regs[want.Route.Index].methods(); len(ms) > 1 && q.M != ms[0] {
 					out.NonTrivial = true
 					out.Classes = append(out.Classes, "via-other-method")
-				}
-			}
-			if len(c.Regs) > 0 {
-				for _, g := range c.Regs {
-					if len(g.Headers) > 1 {
-						out.Classes = append(out.Classes, "headers-respecified")
-						break
-					}
 				}
 			}
 			if want.Found != (ran >= 0) || (ran >= 0) == notFound {
@@ -283,7 +296,7 @@ func genHeaders(t *rapid.T) []string {
 }
 
 func genCase(t *rapid.T) Case {
-	vias := []string{"get", "get", "route:POST", "routes-list", "routes-args", "routes-lower", "any", "route:*", "route:get", "autohead-get"}
+	vias := []string{"get", "get", "route:POST", "routes-list", "routes-args", "routes-lower", "any", "route:*", "route:get", "autohead-get", "autohead-get-again"}
 	pool := gen.SegPoolW(t, 5, false, [3]int{50, 70, 88})
 	n := rapid.IntRange(1, 6).Draw(t, "nroutes")
 	g := model.NewRegistrar()
@@ -321,18 +334,30 @@ func genCase(t *rapid.T) Case {
 		for _, name := range []string{"X-Api", "Accept", "User-Agent", "X-B"} {
 			switch rapid.IntRange(0, 3).Draw(t, "hk") {
 			case 0:
-			case 1:
+			case 1, 2:
+				// (a request built by net/http carries canonical names only)
 				reqs[i].H = append(reqs[i].H, [2]string{name, hdrValue(t)})
-			case 2:
-				reqs[i].H = append(reqs[i].H, [2]string{strings.ToLower(name), hdrValue(t)})
 			default:
 				reqs[i].H = append(reqs[i].H, [2]string{name, "v1"})
 			}
 		}
 	}
+	if len(c.Regs) > 0 && rapid.IntRange(0, 2).Draw(t, "late") == 0 {
+		for i, n := 0, rapid.IntRange(1, 2).Draw(t, "nlate"); i < n; i++ {
+			c.Late = append(c.Late, LateHeaders{I: rapid.IntRange(0, len(c.Regs)-1).Draw(t, "li"), H: genHeaders(t)})
+		}
+	}
 	// a constrained header may be repeated; only repetitions whose verdict does
-	// not depend on which of the values counts are generated (both match the
-	// route's expression or both do not, both non-empty)
+	// not depend on which of the values counts - the first, the last, any, or
+	// the comma-joined list - are generated, for every expression the case
+	// ever installs on that header (the late ones included)
+	var sets [][]string
+	for _, g := range c.Regs {
+		sets = append(sets, g.Headers...)
+	}
+	for _, l := range c.Late {
+		sets = append(sets, l.H)
+	}
 	for i := range reqs {
 		if rapid.IntRange(0, 3).Draw(t, "repeat") != 0 || len(reqs[i].H) == 0 {
 			continue
@@ -344,17 +369,13 @@ func genCase(t *rapid.T) Case {
 			continue
 		}
 		ok := true
-		for _, g := range c.Regs {
-			if len(g.Headers) == 0 {
-				continue
-			}
-			last := g.Headers[len(g.Headers)-1]
-			for k := 1; k < len(last); k += 2 {
-				if http.CanonicalHeaderKey(last[k-1]) != http.CanonicalHeaderKey(name) {
+		for _, set := range sets {
+			for k := 1; k < len(set); k += 2 {
+				if http.CanonicalHeaderKey(set[k-1]) != http.CanonicalHeaderKey(name) {
 					continue
 				}
-				re := regexp.MustCompile(last[k])
-				if re.MatchString(v1) != re.MatchString(v2) {
+				re := regexp.MustCompile(set[k])
+				if m := re.MatchString(v1); m != re.MatchString(v2) || m != re.MatchString(v1+", "+v2) || m != re.MatchString(v1+","+v2) {
 					ok = false
 				}
 			}
@@ -364,11 +385,6 @@ func genCase(t *rapid.T) Case {
 		}
 	}
 	c.Reqs = reqs
-	if len(c.Regs) > 0 && rapid.IntRange(0, 2).Draw(t, "late") == 0 {
-		for i, n := 0, rapid.IntRange(1, 2).Draw(t, "nlate"); i < n; i++ {
-			c.Late = append(c.Late, LateHeaders{I: rapid.IntRange(0, len(c.Regs)-1).Draw(t, "li"), H: genHeaders(t)})
-		}
-	}
 	return c
 }
 
